@@ -318,7 +318,9 @@ func c04SetContent(m map[string]json.RawMessage, key string, val string, del boo
 func c04Tamperings(c *Ctx, b c04Built, hashVariants bool) []c04Tamper {
 	ver, typ := b.ver, b.typ
 	var ts []c04Tamper
-	add := func(name, class string, f func(m map[string]json.RawMessage)) { ts = append(ts, c04Tamper{name, class, f}) }
+	add := func(name, class string, f func(m map[string]json.RawMessage)) {
+		ts = append(ts, c04Tamper{name, class, f})
+	}
 	cls := func(kept bool) string {
 		if kept {
 			return "p"
@@ -553,11 +555,11 @@ func c04Limits(c *Ctx, ver string) {
 	values := func(prefix, suffix string) []string {
 		room := 255 - len(prefix) - len(suffix)
 		return []string{
-			prefix + strings.Repeat("t", room) + suffix,          // 255 bytes
-			prefix + strings.Repeat("t", room+1) + suffix,        // 256 bytes, 256 code points
-			prefix + strings.Repeat(e2, (room+2)/2) + suffix,     // just over 255 bytes, about 128 code points
-			prefix + strings.Repeat(e2, room) + suffix,           // 255 code points, about 510 bytes
-			prefix + strings.Repeat(e2, room+1) + suffix,         // 256 code points
+			prefix + strings.Repeat("t", room) + suffix,                             // 255 bytes
+			prefix + strings.Repeat("t", room+1) + suffix,                           // 256 bytes, 256 code points
+			prefix + strings.Repeat(e2, (room+2)/2) + suffix,                        // just over 255 bytes, about 128 code points
+			prefix + strings.Repeat(e2, room) + suffix,                              // 255 code points, about 510 bytes
+			prefix + strings.Repeat(e2, room+1) + suffix,                            // 256 code points
 			prefix + strings.Repeat("t", 254-len(prefix)-len(suffix)) + e2 + suffix, // 256 bytes, 255 code points
 		}
 	}
@@ -574,10 +576,31 @@ func c04Limits(c *Ctx, ver string) {
 			both(c04BuildCustom(ver, "m.room.message", nil, v, content, nil), c04LenClass(v), fmt.Sprintf("sender %dB/%dcp", len(v), len([]rune(v))))
 		}
 	}
-	// two limited fields at once: the refusal that is not persistable wins
+	// the room ID (with a domain in every version; the create event's is derived): over the byte
+	// limit only it is persistable WITH the event (repair of F42), alone and under a hash fault
+	withRoom := func(txt []byte, room string) []byte {
+		m := c04Obj(txt)
+		b, _ := json.Marshal(room)
+		m["room_id"] = b
+		h := c04Hash(ver, c04Marshal(m))
+		m["hashes"] = json.RawMessage(`{"sha256":"` + spec.Base64Bytes(h).Encode() + `"}`)
+		return c04Marshal(m)
+	}
+	for _, v := range values("!", ":a") {
+		both(withRoom(c04BuildCustom(ver, "m.room.message", nil, "", content, nil), v), c04LenClass(v), fmt.Sprintf("room %dB/%dcp", len(v), len([]rune(v))))
+	}
+	// two limited fields at once: the refusal that is not persistable wins, in whatever field it is
+	if !pseudo {
+		ty := "t." + strings.Repeat(e2, 127)        // 256 bytes: persistable on its own
+		snd := "@" + strings.Repeat(e2, 256) + ":a" // 257 code points: refused
+		both(c04BuildCustom(ver, ty, nil, snd, content, nil), "e:toolarge", "type persistable + sender too large")
+		rm := "!" + strings.Repeat(e2, 130) + ":a"
+		both(withRoom(c04BuildCustom(ver, "m.room.message", nil, snd, content, nil), rm), "e:toolarge", "room persistable + sender too large")
+		both(withRoom(c04BuildCustom(ver, ty, nil, "", content, nil), rm), "e:persistable", "room persistable + type persistable")
+	}
 	{
 		ty := "t." + strings.Repeat(e2, 127) // 256 bytes: persistable on its own
-		sk := strings.Repeat("s", 256)        // 256 code points: refused
+		sk := strings.Repeat("s", 256)       // 256 code points: refused
 		both(c04BuildCustom(ver, ty, &sk, "", content, nil), "e:toolarge", "type persistable + state_key too large")
 		sk2 := strings.Repeat(e2, 128)
 		both(c04BuildCustom(ver, ty, &sk2, "", content, nil), "e:persistable", "type persistable + state_key persistable")
